@@ -265,12 +265,43 @@ def validate_render(rng, n):
     return cases, fails
 
 
+def validate_symstr(rng, n):
+    """SymStr.splitlines / split / hex value on concrete strings vs the real str methods and int(s, 16)"""
+    from .symstr import SymStr, hex_value
+    fails = []
+    cases = 0
+    alphabet = ' \t\n\r\x0b\x0cab0x9Ff#_;'
+    eng = Engine(); set_engine(eng); eng.start()
+    try:
+        for _ in range(4 * n):
+            s = ''.join(rng.choice(alphabet) for _ in range(rng.randrange(0, 14)))
+            sy = SymStr([ord(c) for c in s])
+            got = [x if isinstance(x, str) else ''.join(chr(i) for i in x.items) for x in sy.splitlines()]
+            cases += 1
+            if got != s.splitlines():
+                fails.append(('splitlines', s, got, s.splitlines()))
+            got = [x if isinstance(x, str) else ''.join(chr(i) for i in x.items) for x in sy.split()]
+            cases += 1
+            if got != s.split():
+                fails.append(('split', s, got, s.split()))
+        for _ in range(2 * n):
+            digits = ''.join(rng.choice('0123456789abcdefABCDEF') for _ in range(rng.randrange(1, 9)))
+            lit = rng.choice(['', '0x', '0X']) + digits
+            v = hex_value(SymStr([ord(c) for c in lit]))
+            cases += 1
+            if v != int(lit, 16):
+                fails.append(('hex', lit, v, int(lit, 16)))
+    finally:
+        set_engine(None)
+    return cases, fails
+
+
 def run_all(seed, verbose=False, n=40):
     rng = random.Random(seed)
     cases = 0
     failures = []
     for name, fn in (('struct', validate_struct), ('ctypes', validate_ctypes), ('arith', validate_arith),
-                     ('enum', validate_enum), ('render', validate_render)):
+                     ('enum', validate_enum), ('render', validate_render), ('symstr', validate_symstr)):
         c, f = fn(rng, n if name != 'arith' else 6 * n)
         cases += c
         failures += f
